@@ -56,7 +56,8 @@ PROPS = {
         "uses_facts": False,
         "suites": [{"name": "snake"}],
         "rule": "exhaustive strings over {a,s,B,1,_} up to length 6 (quick) / 9 (thorough) + random ASCII identifiers "
-                "of length 1..25 biased to caps runs and final 's'; every case: utils.ToSnakeCase(input) compared with the "
+                "of length 1..25 biased to caps runs and final 's', + the builder route (column names AddTable prints for one-field structs with fixed and random exported field names, "
+                "table names GetTableName gives named struct types with and without plural naming, the referenced table of an unregistered foreign-key target); every case: utils.ToSnakeCase(input) / the name the builder printed compared with the "
                 "Lean model Snake.toSnake and the executable C16 predicate SnakeSpec.snakeSpecOK evaluated on the Go output; "
                 "non-trivial = output differs from input; distinct by input",
         "trusted_base": COMMON_TB + [
